@@ -67,6 +67,12 @@ def main():
                 o["hash_eq"] = hash(x) == hash(n)
                 o["is_declared_member"] = any(x is m for m in cls)
                 o["same_again"] = cls(n) is x
+                # the documented way to construct takes the integer as `value`: positionally or by keyword
+                try:
+                    y = cls(value=n)
+                    o["kw"] = "ok" if (y is x or (type(y) is type(x) and y == x and y.name == x.name and any(y is m for m in cls) == any(x is m for m in cls))) else "differs: " + repr(y)
+                except Exception as e:  # noqa
+                    o["kw"] = "raised " + type(e).__name__
                 o["is_attr"] = (getattr(cls, x.name, None) is x) if isinstance(x.name, str) else False
                 try:
                     o["contains"] = (n in cls)
